@@ -27,6 +27,32 @@ class C12(PropertyCheck):
         "entry point of the property's observe_at list is evaluated at o and at o+d; distinct = distinct "
         "case inputs; non-trivial = d has a non-zero component and the mask has masked and unmasked pixels"
     )
+    modelled_functions = [
+        "autoarray/geometry/geometry_util.py:central_pixel_coordinates_2d_from",
+        "autoarray/geometry/geometry_util.py:central_scaled_coordinate_2d_from",
+        "autoarray/geometry/geometry_util.py:pixel_coordinates_2d_from",
+        "autoarray/geometry/geometry_util.py:grid_pixels_2d_slim_from",
+        "autoarray/geometry/geometry_util.py:grid_pixel_centres_2d_slim_from",
+        "autoarray/geometry/geometry_util.py:grid_pixel_indexes_2d_slim_from",
+        "autoarray/structures/grids/grid_2d_util.py:grid_2d_slim_via_mask_from",
+        "autoarray/structures/grids/grid_2d_util.py:grid_2d_centre_from",
+        "autoarray/structures/grids/uniform_2d.py:Grid2D.padded_grid_from",
+        "autoarray/structures/grids/uniform_2d.py:Grid2D.from_mask",
+        "autoarray/mask/mask_2d.py:Mask2D.mask_centre",
+        "autoarray/mask/mask_2d.py:Mask2D.zoom_centre",
+        "autoarray/mask/mask_2d.py:Mask2D.zoom_offset_pixels",
+        "autoarray/mask/mask_2d.py:Mask2D.zoom_offset_scaled",
+        "autoarray/mask/mask_2d.py:Mask2D.zoom_mask_unmasked",
+        "autoarray/mask/mask_2d.py:Mask2D.resized_from",
+        "autoarray/structures/arrays/uniform_2d.py:AbstractArray2D.zoomed_around_mask",
+        "autoarray/operators/over_sampling/over_sample_util.py:grid_2d_slim_over_sampled_via_mask_from",
+        "autoarray/structures/mesh/rectangular_2d.py:Mesh2DRectangular.overlay_grid",
+        "autoarray/dataset/imaging/dataset.py:Imaging.apply_noise_scaling",
+        "autoarray/dataset/imaging/simulator.py:SimulatorImaging.via_image_from",
+        "autoarray/dataset/preprocess.py:noise_map_with_signal_to_noise_limit_from",
+        "autoarray/inversion/pixelization/image_mesh/overlay.py:Overlay.image_plane_mesh_grid_from",
+        "autoarray/inversion/pixelization/image_mesh/hilbert.py:image_and_grid_from",
+    ]
     trusted_extra = [
         "scipy.interpolate.griddata / Qhull inside image_mesh.Hilbert is not modelled (only the placement of its grids)",
         "float rounding of translated coordinates (inputs are dyadic so translations are exact; tolerance 1e-9)",
